@@ -16,7 +16,7 @@ static unsigned char vf_dev[VF_DEVCAP];
 static long vf_dev_size;
 static long vf_pos;
 static int vf_closed, vf_fsyncs, vf_nwrites;
-static int vf_fail_write_at = -1;	/* index of the device write that fails, -1: none */
+static int vf_fail_write_at = -1;	/* every device write from this index on fails (pwrite and its lseek+write retry alike), -1: none */
 static int vf_write_seen_rdonly;	/* set if a write reaches a descriptor opened read-only */
 static int vf_rdonly;
 
@@ -55,7 +55,7 @@ static long vf_do_write(const void *buf, unsigned long n, long off)
 	long p, cnt = 0;
 	const unsigned char *b = buf;
 	if (vf_rdonly) vf_write_seen_rdonly = 1;
-	if (vf_nwrites++ == vf_fail_write_at) { errno = EIO; return -1; }
+	if (vf_fail_write_at >= 0 && vf_nwrites++ >= vf_fail_write_at) { errno = EIO; return -1; }
 	if (off < 0) { errno = EINVAL; return -1; }
 #ifdef VF_INRANGE
 	PROP(n <= MAXIO && off + (long) n <= vf_dev_size, "env: device request inside the device");
